@@ -139,6 +139,29 @@ func (c SliceAssignment) RetError() bool {
 	return false
 }
 
+// loopVars returns names for the index and the element variable of a copy loop that
+// do not shadow the variables the given expressions start with (a receiver or result
+// the user named e or i).
+func loopVars(exprs ...string) (idx, elem string) {
+	taken := make(map[string]bool)
+	for _, expr := range exprs {
+		root := strings.TrimLeft(expr, "&*(")
+		if k := strings.IndexAny(root, ".[()"); 0 <= k {
+			root = root[:k]
+		}
+		taken[root] = true
+	}
+	pick := func(names ...string) string {
+		for _, name := range names {
+			if !taken[name] {
+				return name
+			}
+		}
+		return names[0]
+	}
+	return pick("i", "idx", "ii"), pick("e", "elem", "ee")
+}
+
 // SliceLoopAssignment represents a slice assignment with a loop.
 type SliceLoopAssignment struct {
 	LHS string
@@ -157,11 +180,12 @@ func (c SliceLoopAssignment) String() string {
 	sb.WriteString(c.Typ)
 	sb.WriteString(", len(")
 	sb.WriteString(c.RHS)
-	sb.WriteString("))\nfor i, e := range ")
+	idx, elem := loopVars(c.LHS, c.RHS)
+	sb.WriteString("))\nfor " + idx + ", " + elem + " := range ")
 	sb.WriteString(c.RHS)
 	sb.WriteString("{\n")
 	sb.WriteString(c.LHS)
-	sb.WriteString("[i] = e\n}\n}\n")
+	sb.WriteString("[" + idx + "] = " + elem + "\n}\n}\n")
 	return sb.String()
 }
 
@@ -189,13 +213,14 @@ func (c SliceTypecastAssignment) String() string {
 	sb.WriteString(c.Typ)
 	sb.WriteString(", len(")
 	sb.WriteString(c.RHS)
-	sb.WriteString("))\nfor i, e := range ")
+	idx, elem := loopVars(c.LHS, c.RHS)
+	sb.WriteString("))\nfor " + idx + ", " + elem + " := range ")
 	sb.WriteString(c.RHS)
 	sb.WriteString("{\n")
 	sb.WriteString(c.LHS)
-	sb.WriteString("[i] = ")
+	sb.WriteString("[" + idx + "] = ")
 	sb.WriteString(c.Cast)
-	sb.WriteString("(e)\n}\n}\n")
+	sb.WriteString("(" + elem + ")\n}\n}\n")
 	return sb.String()
 }
 
